@@ -25,6 +25,9 @@ func (cc *CMPPCodec) Decode(c ConnReader) ([]byte, error) {
 	}
 
 	totalLen := int(binary.BigEndian.Uint32(totalLenBytes))
+	if totalLen < cmpp.PacketTotalLengthBytes {
+		return nil, ErrInvalidPacketLength
+	}
 	if c.Size() < totalLen {
 		return nil, ErrPacketNotComplete
 	}
@@ -54,6 +57,9 @@ func (cc *CMPPCodec) DecodeBlocked(c ConnReader) ([]byte, error) {
 		return nil, err
 	}
 	totalLen := int(binary.BigEndian.Uint32(totalLenBytes))
+	if totalLen < cmpp.PacketTotalLengthBytes {
+		return nil, ErrInvalidPacketLength
+	}
 
 	left := make([]byte, totalLen)
 	_, err = io.ReadFull(c, left[cmpp.PacketTotalLengthBytes:])
